@@ -176,6 +176,12 @@ def gen_params(rng: random.Random, idx, tier="quick", profile="mixed", force=Non
             at = round(rng.uniform(0.5, max(0.6, horizon - d)), 3)
             script.append({"t": at, "op": "idle", "m": rng.choice(sorted(members)), "for": round(d, 3)})
         script.sort(key=lambda a: a["t"])
+    # one on_partitions_revoked callback (with partitions to give up) that takes LONGER than the rebalance timeout: the
+    # group completes the generation without this member, which may only join after its callback has returned
+    P["long_revoke"] = None
+    if profile in ("rebalance", "mixed") and rng.random() < 0.15:
+        P["long_revoke"] = {"m": rng.choice(sorted(members)), "after_t": round(rng.uniform(0.5, horizon * 0.6), 3),
+                            "extra": rng.choice([0.5, 1.5])}
     P["kill_at_event"] = None      # {"m": .., "k": ..}: kill member m at loop event k (crash-point enumeration)
     P["stop_at_event"] = None
     if force:
@@ -333,6 +339,12 @@ def run_history(P):
                 inc = self.inc
                 log(inc["id"], "revoked.start", tps=sorted([tp.topic, tp.partition] for tp in revoked))
                 d = inc["rng"].uniform(0, P["listener_delay"])
+                lr = P.get("long_revoke")
+                if lr and lr["m"] == inc["member"] and revoked and not state.get("long_revoke_used") \
+                        and loop.time() - t0 >= lr["after_t"]:
+                    state["long_revoke_used"] = True
+                    d = P["rebalance_timeout_ms"] / 1000.0 + lr["extra"]
+                    log(inc["id"], "long_revoke", seconds=d)
                 if d > 0:
                     await asyncio.sleep(d)
                 log(inc["id"], "revoked.end")
